@@ -9,8 +9,12 @@
             failing call gets its own verdict).  The VERDICT line stays below 80 characters
             (TLC wraps longer tuples): ids < 10^5, at most 256 events per trace.
    conform  (the binding): the recorded output must be the output of the design-spec operator of
-            Codecs.tla for that input (exactly; for the real-valued outputs of
-            decompress_quaternion within 2^-18 of the spec's dyadic value).
+            Codecs.tla for that input: exactly for fp16 (value, zero sign and Python type), the
+            packed trajectory bytes, the RGB565 bytes, range and lighthouse decoding; for the
+            quaternion word through the relation form IsCompress (index, sign bits, and each
+            magnitude is *the* round-half-up integer), for the doubles of decompress_quaternion
+            through IsDecompress (within 2^-18 / 2^-17 of the real values the code approximates).
+            An accepted but unexplained event is drift (counted, never a violation).
 
    Trace: [id, kind, ev, ...]; kinds and event fields:
      "fp16"  [h, o]                       pattern 0..65535, o Num
@@ -61,7 +65,6 @@ SameNum(a, b) == /\ a.c = b.c
                  /\ a.c = "fin" => /\ DEq(P!ToD(a), P!ToD(b))
                                    /\ (a.m = <<>> /\ a.t = "float" /\ b.t = "float") => a.s = b.s
 SameNums(as, bs) == Len(as) = Len(bs) /\ \A i \in DOMAIN as : SameNum(as[i], bs[i])
-Near(a, b) == a.c = "fin" /\ DLe(DAbs(DSub(P!ToD(a), P!ToD(b))), D(0, <<1>>, -18))
 SegHeader == LET ty(n) == IF n = 0 THEN 0 ELSE IF n = 1 THEN 1 ELSE IF n = 3 THEN 2 ELSE 3 IN
              <<ty(Ev.lens[1]) + 4 * ty(Ev.lens[2]) + 16 * ty(Ev.lens[3]) + 64 * ty(Ev.lens[4]),
                Ev.ms % 256, Ev.ms \div 256>>
